@@ -53,14 +53,20 @@ impl WalRecuperator {
                 .rev()
             {
                 if let Some(delete_operation) = analysis.delete_ops.get(&lsn) {
-                    self.undo_delete(delete_operation)?;
+                    if self.table_is_on_disk(delete_operation.object_id()) {
+                        self.undo_delete(delete_operation)?;
+                    }
                 }
                 if let Some(update_operation) = analysis.update_ops.get(&lsn) {
-                    self.undo_update(update_operation)?;
+                    if self.table_is_on_disk(update_operation.object_id()) {
+                        self.undo_update(update_operation)?;
+                    }
                 }
 
                 if let Some(insert_operation) = analysis.insert_ops.get(&lsn) {
-                    self.undo_insert(insert_operation)?;
+                    if self.table_is_on_disk(insert_operation.object_id()) {
+                        self.undo_insert(insert_operation)?;
+                    }
                 }
 
                 if let Some(create_operation) = analysis.create_ops.get(&lsn) {
@@ -76,6 +82,22 @@ impl WalRecuperator {
         }
 
         Ok(())
+    }
+
+    /// The undo pass runs before the redo pass. A table whose CREATE is itself still in the log
+    /// is not on disk yet, and neither is anything an unfinished transaction did to it:
+    /// there is nothing to take back (and no catalog entry to take it back with).
+    fn table_is_on_disk(&self, table_id: Option<crate::ObjectId>) -> bool {
+        let Some(table_id) = table_id else {
+            return false;
+        };
+        let builder = self.dml_executor.ctx().tree_builder();
+        let snapshot = self.dml_executor.ctx().snapshot();
+        self.dml_executor
+            .ctx()
+            .catalog()
+            .get_relation(table_id, &builder, &snapshot)
+            .is_ok()
     }
 
     /// Run all the redo.
@@ -169,14 +191,17 @@ impl WalRecuperator {
 
         // Determine if it's a table or index and execute the inverse
         if let Ok(create_table_instr) = CreateTableInstr::from_bytes(redo_bytes) {
-            let drop_instr = create_table_instr.inverse(object_id);
+            // The table never reached the disk if its creator was still running at the crash.
+            let mut drop_instr = create_table_instr.inverse(object_id);
+            drop_instr.if_exists = true;
             let instr = DdlInstruction::DropTable(drop_instr);
             self.ddl_executor.execute_instruction(&instr)?;
             return Ok(());
         }
 
         if let Ok(create_index_instr) = CreateIndexInstr::from_bytes(redo_bytes) {
-            let drop_instr = create_index_instr.inverse(object_id);
+            let mut drop_instr = create_index_instr.inverse(object_id);
+            drop_instr.if_exists = true;
             let instr = DdlInstruction::DropIndex(drop_instr);
             self.ddl_executor.execute_instruction(&instr)?;
         }
